@@ -53,7 +53,6 @@ Section PassSolve.
   Hypothesis Hfl : fm_lags fm = Z.of_nat (lags d).
   Hypothesis Hfd : fm_leads fm = Z.of_nat (leads d).
   Hypothesis Hsc : prog_scoped num m (Z.of_nat (lags d)) (Z.of_nat (leads d)) prog.
-  Hypothesis Hmax : 0 < max_iter o.
   Hypothesis Hmm : min_iter o <= max_iter o.
   Hypothesis Hec : w_ec (errors o) = Some ec.
   Hypothesis Hfc : w_fc fl = Some fc.
@@ -83,7 +82,7 @@ Section PassSolve.
     cbn [solve_ok_prog] in Hok. destruct Hok as [Hp Hr].
     pose proof (period_ok_of_prog p v Hs Hp) as Hpo. split; [exact Hpo|].
     apply IH; [|exact Hr].
-    destruct (period_spec num sub absf ltb isfin zero evf (py_hook prog n) fm d o n m ec fl Hm Hchk Hend Hfe Hfl Hfd Hmax Hmm
+    destruct (period_spec num sub absf ltb isfin zero evf (py_hook prog n) fm d o n m ec fl Hm Hchk Hend Hfe Hfl Hfd Hmm
                 evf_shape Hec Hfr p v (repeat Unsolved n) [] [] Hs (repeat_length _ _) Hpo) as (v' & b & k & lg' & Hpa & Hs' & _).
     unfold FSolveAll.period_args in Hpa |- *. rewrite Hpa. exact Hs'.
   Qed.
@@ -95,7 +94,7 @@ Section PassSolve.
               (py_solve num sub absf ltb isfin zero (py_hook prog n) (no_hook num) (no_hook num) d o ps s).
   Proof.
     intros Hs Hlen Hok.
-    apply (w_solve_refines num sub absf ltb isfin zero evf (py_hook prog n) fm d o n m ec fc fl Hm Hchk Hend Hfe Hfl Hfd Hmax Hmm
+    apply (w_solve_refines num sub absf ltb isfin zero evf (py_hook prog n) fm d o n m ec fc fl Hm Hchk Hend Hfe Hfl Hfd Hmm
              evf_shape Hec Hfc Hfr ps s Hs Hlen).
     apply solve_ok_of_prog; assumption.
   Qed.
